@@ -554,8 +554,10 @@ def check(pid, tier, only=None, jobs=None):
             extra_fails.append(h)
             continue
         hm = hmeta[h]
-        tests, pblog = extract_playback(hm["crate"], h, hm["flags"], hm.get("timeout", 600), hm.get("mem_gb", 16),
-                                        hm.get("cbmc_args"))
+        # trace extraction needs far more address space than the verdict run (kani-driver parses
+        # the full CBMC trace), so it gets a generous cap
+        tests, pblog = extract_playback(hm["crate"], h, hm["flags"], hm.get("timeout", 600),
+                                        max(40, hm.get("mem_gb", 16)), hm.get("cbmc_args"))
         rdir = os.path.join(VERIF, "replay", pid)
         os.makedirs(rdir, exist_ok=True)
         rpath = os.path.join(rdir, h.replace("::", "__") + ".rs")
